@@ -106,6 +106,24 @@ def builtin_fn(ex, st, nm, e, cx, k):
             z = ex.coerce(v, INT).z
             return k(st, SV(INT, z3.If(z >= 0, z, -z)))
         return ex.ev(st, args[0], cx, f)
+    if nm == 'max' and len(args) == 1 and 'default' in kws and isinstance(args[0], ast.Call) \
+            and isinstance(args[0].func, ast.Attribute) and args[0].func.attr == 'keys':
+        # max(d.keys(), default=x): the largest key, or x for an empty dict
+        def f(st, vs):
+            d, dflt = vs
+            if d.ty.kind != 'dict' or d.ty.args[0].kind != 'int':
+                raise VCError('max over keys of a non-int-keyed dict')
+            dom = ex.dict_dom(st, d)
+            m = ex.fresh(INT, 'maxkey')
+            kq = z3.Int('k!max')
+            empty = z3.ForAll([kq], z3.Not(z3.Select(dom, kq)), patterns=[z3.Select(dom, kq)])
+            ismax = z3.And(z3.Select(dom, m.z), z3.ForAll([kq], z3.Implies(z3.Select(dom, kq), kq <= m.z),
+                                                          patterns=[z3.Select(dom, kq)]))
+            outs = []
+            outs += k(st.assume(empty), ex.coerce(dflt, INT))
+            outs += k(st.assume(ismax), m)
+            return outs
+        return ex.ev_list(st, [args[0].func.value, kws['default']], cx, f)
     if nm in ('max', 'min') and len(args) >= 2:
         def f(st, vs):
             r = ex.coerce(vs[0], INT).z
